@@ -121,3 +121,9 @@ UNITS.append(normalize_default_unit("C10"))
 
 from contracts.share import carried as _carried  # noqa: E402
 UNITS += _carried("C10")
+
+# re-parsing a result: _check_type takes the __path__ entry of a mapping out for the type check and puts it back on what it returns (parse_object(r) == r)
+from contracts.check_type import check_type_unit as _c10_check_type_unit  # noqa: E402
+UNITS.append(_c10_check_type_unit("C10"))
+from contracts.share import shared as _c10_shared  # noqa: E402
+UNITS += _c10_shared("C10", "contracts.c19", ":parse_value_or_config")  # a text that the loader reads as (another) text stays the text given: normalisation is idempotent
